@@ -811,6 +811,137 @@ def run_shards_a(ctx, cases, stats):
     return len(shards)
 
 
+# ------------------------------------------------------------------------------------------ part (a2): Matmul.backward
+
+RHS_KINDS = ["full", "nobatch", "lead1", "inner1", "mid1", "bigger", "full", "inner1"]
+
+
+def rhs_batch(kind, batch):
+    batch = list(batch)
+    if kind == "nobatch":
+        return []
+    if kind == "lead1":
+        return [1] + batch[1:] if batch else []
+    if kind == "inner1":                               # same rank, interior singleton
+        return batch[:-1] + [1] if len(batch) >= 2 else ([1] if batch else [])
+    if kind == "mid1":                                 # fewer dimensions and a singleton
+        return batch[1:-1] + [1] if len(batch) >= 2 else []
+    if kind == "bigger":
+        return [2] + batch
+    return batch
+
+
+def make_cases_b(ctx, rng, cases):
+    """for the operators of part (a) whose dense meaning the model has: run the REAL Matmul function forward and
+    backward (torch.autograd.grad with an integer grad_output G) and record the gradient delivered to rhs"""
+    from linear_operator.functions._matmul import Matmul
+    import linear_operator
+    out, nskip = [], 0
+    for ci, r in enumerate(cases):
+        if not r.get("lit") or r.get("mode", 0) < 1 or isinstance(r["obs"], Exception):
+            continue
+        if ctx.quick and ci % 2:
+            continue
+        op, tree, rep = r["op"], r["tree"], r["rep"]
+        shape = list(op.shape)
+        batch, m, n = shape[:-2], shape[-2], shape[-1]
+        kind = RHS_KINDS[ci % len(RHS_KINDS)]
+        rb = rhs_batch(kind, batch)
+        kcols = 1 + ci % 2
+        rs = ob.rand_t(rng, rb + [n, kcols], -2, 2)
+        try:
+            ob_shape = list(torch.broadcast_shapes(tuple(batch), tuple(rb)))
+        except RuntimeError:
+            nskip += 1
+            continue
+        Gs = ob.rand_t(rng, ob_shape + [m, kcols], -2, 2)
+        G = ob.tt(Gs)
+        res = {}
+        for me in (False, True):
+            rhs = ob.tt(rs).requires_grad_(True)
+            try:
+                with linear_operator.settings.memory_efficient(me):
+                    o = Matmul.apply(op.representation_tree(), rhs, *op.representation())
+                    if list(o.shape) != list(G.shape):
+                        raise RuntimeError("output shape %s" % (tuple(o.shape),))
+                    res[me] = torch.autograd.grad(o, rhs, grad_outputs=G, allow_unused=True)[0]
+            except Exception as ex:  # noqa   (forward refuses the broadcast: not a gradient matter)
+                res[me] = ex
+        if isinstance(res[False], Exception) or isinstance(res[True], Exception) or res[False] is None:
+            nskip += 1
+            continue
+        # oracle: D^T G reduced to the shape of rhs, by autograd on the dense assembly of the representation
+        rhs2 = ob.tt(rs).requires_grad_(True)
+        Dm = dense_t(tree, [x.detach() for x in rep])
+        want = torch.autograd.grad(Dm @ rhs2, rhs2, grad_outputs=G)[0]
+        b = {"case": r, "kind": kind, "rs": rs, "Gs": Gs, "got": res[False].detach(), "want": want,
+             "memeff_equal": bool(torch.equal(res[False], res[True]))}
+        b["ok"] = b["memeff_equal"] and tuple(b["got"].shape) == tuple(want.shape) and \
+            float((b["got"] - want).abs().max() if want.numel() else 0.0) <= 1e-6 * max(1.0, float(want.abs().max()) if want.numel() else 1.0)
+        d = ints_of(b["got"])
+        b["lit"] = None if d is None else "(mkBCase %s %s %s (%s, [%s]%%Z))" % (
+            model_lit(tree, rep), tz_lit(ob.tt(rs)), tz_lit(G), common.natlist(list(b["got"].shape)[::-1]),
+            "; ".join(zl(a) for a in d))
+        out.append(b)
+    return out, nskip
+
+
+def replay_b2(b):
+    r = b["case"]
+    return {"layer": "matmul-backward", "expr": r["e"], "rg_mask": r["mask"], "rhs": b["rs"], "G": b["Gs"], "rhs_kind": b["kind"],
+            "observed": {"shape": list(b["got"].shape), "data": [round(float(v), 6) for v in b["got"].reshape(-1).tolist()[:64]]},
+            "expected": {"shape": list(b["want"].shape), "data": [round(float(v), 6) for v in b["want"].reshape(-1).tolist()[:64]]},
+            "memory_efficient_on_off_equal": b["memeff_equal"],
+            "what": "gradient that torch.autograd.grad delivers to rhs through linear_operator.functions._matmul.Matmul "
+                    "(grad_output G) vs autograd on the dense assembly"}
+
+
+def run_part_b2(ctx, rng, cases, stats, ok):
+    bc, nskip = make_cases_b(ctx, rng, cases)
+    stats["matmul_backward_cases"] = len(bc)
+    stats["matmul_backward_skipped"] = nskip
+    seen = set()
+    for b in bc:
+        if b["ok"]:
+            continue
+        e = b["case"]["e"]
+        key = {"layer": "matmul-backward", "fail": "value" if b["memeff_equal"] else "memeff", "rhs_kind": b["kind"],
+               "root": e["cls"], "has_chol_upper": has_cls(e, "Chol", lambda x: x.get("upper")),
+               "batch_dims": len(b["case"]["op"].shape) - 2}
+        sig = json.dumps(key, sort_keys=True)
+        if sig not in seen:
+            seen.add(sig)
+            ctx.violation(dict(replay_b2(b), kind="property-fails-on-implementation"), key=key)
+    if not ok:
+        return
+    lits = [b for b in bc if b["lit"]]
+    SHB = 60
+    shards = [("c07_mb_%d" % (i // SHB),
+               HDR + "Definition cases : list bcase := [\n %s].\nEval vm_compute in (bad_bcases cases 0).\n"
+               % ";\n ".join(b["lit"] for b in lits[i:i + SHB])) for i in range(0, len(lits), SHB)]
+    res = {}
+    for i in range(0, len(shards), 3):
+        res.update(common.run_shards(ctx, shards[i:i + 3], timeout=600))
+    reported = set()
+    for si, (name, _) in enumerate(shards):
+        rc, out = res[name]
+        bad = common.parse_coq_list_of_nat(out) if rc == 0 else None
+        if bad is None:
+            ctx.violation({"kind": "shard-failed", "shard": name, "out": out[-800:]}, no_input=True)
+            continue
+        for code in bad:
+            b = lits[si * SHB + code // 10]
+            stats["matmul_backward_model_mismatches"] = stats.get("matmul_backward_model_mismatches", 0) + 1
+            if not b["ok"]:
+                continue
+            sig = (b["case"]["e"]["cls"], b["kind"])
+            if sig not in reported:
+                reported.add(sig)
+                ctx.violation(dict(replay_b2(b), kind="model-implementation-disagreement", code=CODES.get(code % 10),
+                                   note="the implementation agrees with the dense oracle; coq/C07/Model.v (matmul_backward) does not"),
+                              no_input=True)
+
+
 # ------------------------------------------------------------------------------------------ part (b)
 
 def report_b(ctx, summ, stats):
@@ -876,6 +1007,7 @@ def run(ctx):
     report_a(ctx, cases, stats)
     t_a = time.time() - t0
     nshards = run_shards_a(ctx, cases, stats) if ok else 0
+    run_part_b2(ctx, rng, cases, stats, ok)
     t_s = time.time() - t0 - t_a
 
     summ = P.run_grid(ctx.seed, ctx.quick, workers=3, budget_s=100 if ctx.quick else 1100)
@@ -952,6 +1084,22 @@ def replay(rp):
         print("autograd on the dense assembly:", [None if g is None else g.tolist() for g in orc])
         print("property failure:" if v else "property holds on this case", v or "")
         return 1 if v else 0
+    if rp.get("layer") == "matmul-backward":
+        from linear_operator.functions._matmul import Matmul
+        Lv = L.Leaves(L.reshare(rp["expr"]), rp["rg_mask"])
+        op = Lv.op
+        rhs = ob.tt(rp["rhs"]).requires_grad_(True)
+        G = ob.tt(rp["G"])
+        o = Matmul.apply(op.representation_tree(), rhs, *op.representation())
+        got = torch.autograd.grad(o, rhs, grad_outputs=G)[0]
+        rhs2 = ob.tt(rp["rhs"]).requires_grad_(True)
+        want = torch.autograd.grad(Lv.dense().detach() @ rhs2, rhs2, grad_outputs=G)[0]
+        print("expression:", ob.describe(rp["expr"]), " rhs shape:", rp["rhs"]["shape"], " grad_output shape:", rp["G"]["shape"])
+        print("rhs gradient through Matmul.backward:", got.tolist())
+        print("rhs gradient through the dense matrix:", want.tolist())
+        bad = tuple(got.shape) != tuple(want.shape) or float((got - want).abs().max()) > 1e-6
+        print("property failure" if bad else "property holds on this case")
+        return 1 if bad else 0
     if rp.get("layer") == "autograd" and "expr" in rp:
         res = P.replay_case(rp)
         print("expression:", ob.describe(rp["expr"]), " entry point:", rp["fn"], rp["fn_args"].get("kind"),
